@@ -30,7 +30,7 @@ import numpy as np
 from .core import Raw, VERIF
 
 PID = 'C13'
-FILES = ['lib/Cases.v', 'C13_Model.v', 'C13_Proofs.v', 'C13_Properties.v']
+FILES = ['lib/Cases.v', 'C13_Model.v', 'C13_Proofs.v', 'C13_ProofsB.v', 'C13_Properties.v']
 KNOWN_FILE = VERIF / 'fixes' / 'C13-known.json'
 SIG_ROT = 'GaussianPRF.evaluate:theta-not-multiple-of-90'
 NAN = float('nan')
@@ -206,7 +206,10 @@ def eval_model(m, flux, x_0, y_0, pts, shape2d=False):
         out = m(x.reshape(2, -1), y.reshape(2, -1)).ravel()
     else:
         out = m(x, y)
-    return np.asarray(out, float)
+    out = np.asarray(out, float)
+    if out.shape != x.shape:
+        raise ValueError(f'model output has shape {out.shape} for {x.shape[0]} input points')
+    return out
 
 
 def bbox_of(m):
@@ -403,7 +406,12 @@ def run_grid(c):
                 vals = eval_model(m, op['flux'], op['x_0'], op['y_0'], op['pts'], op['shape2d'])
                 fresh = eval_model(make_grid(c), op['flux'], op['x_0'], op['y_0'], op['pts'], op['shape2d'])
             out.append((vals, bbox_of(m), fresh))
-    keys = sorted((F(float(k[0])), F(float(k[1]))) for k in m._interpolator)
+    try:
+        keys = sorted((F(float(k[0])), F(float(k[1]))) for k in m._interpolator if len(k) == 2)
+        if len(keys) != len(m._interpolator):
+            keys = []       # malformed cache keys: the model's key set will disagree
+    except Exception:       # noqa
+        keys = []
     return out, keys
 
 
@@ -684,7 +692,8 @@ def real_checks(c, support_cb=None):
     m2 = m.copy()
     m2.flux = 4 * flux
     v2 = m2(xx.astype(float), yy.astype(float))
-    if not np.allclose(v2, 4 * v, rtol=1e-13, atol=0):
+    # (atol: values in the far tails are subnormal doubles, where scaling by 4 is not exact)
+    if not np.allclose(v2, 4 * v, rtol=1e-13, atol=1e-290):
         bad.append((f'{name}:linear-in-flux', 'model(4*flux) != 4*model(flux)'))
     # centred: point-symmetric about (x_0, y_0)
     u = np.array([0.0, 0.3, 1.0, 1.7, 2.5, 0.5])
@@ -724,9 +733,11 @@ def real_checks(c, support_cb=None):
     if not is_prf and support_cb is not None:
         integ = None
         if name in ('CircularGaussianPSF', 'GaussianPSF'):
-            if smax >= 0.4:
-                sub = 8
-                h = int(math.ceil(9 * smax)) + 2
+            # Riemann sum with spacing <= sigma_min/1.5 (error ~ exp(-2 pi^2 (sigma/h)^2) < 1e-15 relative)
+            smin = (min(p['x_fwhm'], p['y_fwhm']) if 'x_fwhm' in p else p['fwhm']) * F2S
+            sub = max(8, int(math.ceil(1.5 / smin)))
+            h = int(math.ceil(9 * smax)) + 2
+            if (2 * h * sub + 1) ** 2 <= 1_600_000:
                 g = (np.arange(-h * sub, h * sub + 1)) / sub
                 X, Y = np.meshgrid(x_0 + g, y_0 + g)
                 integ = float(m(X, Y).sum()) / sub ** 2      # trapezoid == Riemann here (tails vanish)
@@ -792,12 +803,25 @@ def run(ctx):
         'inputs are plain floats (no astropy Quantity): the unit branches of evaluate() are not modelled',
     ]
     ctx.cov['partial_clauses'] = [
-        'imagepsf_sample_points_partial / gridded_*_partial: hypothesis = the spline interpolates its knots',
-        'prf_total_flux: hypotheses on erf (monotone, |erf|<=1, tends to +-1); GaussianPRF only for theta in 90*Z '
-        '(other angles: refuted, known finding)',
-        'continuous integrals of GaussianPSF / CircularGaussianPSF / MoffatPSF / AiryDiskPSF = flux: NOT proved, '
-        'numerical quadrature only (support_tests)',
-        'MoffatPSF / AiryDiskPSF: only linearity/symmetry/sign are checked (numerically); AiryDiskPSF is not modelled',
+        'imagepsf_reproduces_data_partial, gridded_bilinear_blend_partial, gridded_at_grid_position_partial, '
+        'gridded_equals_stored_epsf_partial: hypothesis interpolates_knots spl (scipy RectBivariateSpline(kx=ky=3, s=0) '
+        'returns the data value at integer knots); the index arithmetic, fill, weights, bracketing, cache and '
+        'sorted-grid theorems need no hypothesis',
+        'prf_telescopes_* hold for EVERY function E (only: E is a function of the value of its argument); '
+        'prf_total_flux_*: hypotheses on erf = monotone, |erf| <= 1, tends to +-1 (stated over Q, not proved of '
+        'scipy.special.erf); GaussianPRF only for (cos, sin) in {(1,0),(0,1),(-1,0),(0,-1)} i.e. theta in 90deg*Z, using '
+        'erf odd; other angles: prf_total_flux_elliptical_rotated_refuted + known finding '
+        'GaussianPRF.evaluate:theta-not-multiple-of-90',
+        'circular_is_elliptical_equal_widths: PSF at any rotation from c^2+s^2=1; PRF only at multiples of 90 deg '
+        '(same known finding otherwise)',
+        'centred: translation covariance and evenness are proved; "maximum at (x_0, y_0)" is only tested numerically',
+        'continuous integrals of GaussianPSF / CircularGaussianPSF / MoffatPSF / AiryDiskPSF = flux: NOT proved '
+        '(no Gaussian integral / Bessel theory in the installed Coq libraries), numerical quadrature only '
+        '(support_tests)',
+        'AiryDiskPSF is not modelled in Coq; MoffatPSF is modelled (linearity, symmetry, sign proved) but not '
+        'tied by K (its ** has no exact stand-in): both are checked numerically on the real classes only',
+        'theorems are over Q with abstract primitives; that float cos(90 deg) is 6e-17 rather than 0 is outside '
+        'the model (IEEE gap): the harness checks theta in 90*Z numerically with tolerance 1e-9*flux',
     ]
     n_img = 150 if quick else 1200
     n_grid = 150 if quick else 1200
@@ -810,7 +834,13 @@ def run(ctx):
         c = gen_image_case(rng)
         seed = rng.randrange(1 << 30)
         c['hseed'] = seed
-        vals, bb, fresh = run_image(c, seed)
+        try:
+            vals, bb, fresh = run_image(c, seed)
+        except Exception as e:      # noqa  (valid input: an exception contradicts the property)
+            d = describe_image(c)
+            d['hseed'] = seed
+            ctx.violation(f'ImagePSF:exception:{type(e).__name__}', f'ImagePSF raised on a valid input: {e!s:.200}', d)
+            continue
         for g, v in c['stats'].items():
             ctx.stat('image_' + g, v)
         ctx.stat('image_fill', str(c['fill']))
@@ -831,7 +861,12 @@ def run(ctx):
     # ---- GriddedPSFModel
     for k in range(n_grid):
         c = gen_grid_case(rng)
-        out, keys = run_grid(c)
+        try:
+            out, keys = run_grid(c)
+        except Exception as e:      # noqa
+            ctx.violation(f'GriddedPSFModel:exception:{type(e).__name__}',
+                          f'GriddedPSFModel raised on a valid input: {e!s:.200}', describe_grid(c))
+            continue
         for g, v in c['stats'].items():
             ctx.stat('grid_' + g, v)
         ctx.stat('grid_fill', str(c['fill']))
@@ -853,18 +888,30 @@ def run(ctx):
     # ---- analytic with stand-ins
     for k in range(n_ana):
         c = gen_analytic_case(rng)
-        vals = run_analytic(c)
+        try:
+            vals = run_analytic(c)
+        except Exception as e:      # noqa
+            ctx.violation(f'{AKINDS[c["model"]]}:exception:{type(e).__name__}',
+                          f'evaluate() raised with stand-in primitives: {e!s:.200}', describe_analytic(c),
+                          found_input=False)
+            continue
         ctx.stat('analytic_standin', AKINDS[c['model']])
         ctx.count_case(describe_analytic(c), bool(np.any(vals != 0)))
         cases.append(c)
         impl.append(vals)
         terms.append(f'(CAnalytic {analytic_to_coq(c, vals)})')
-    ctx.sample({'case': describe_image(cases[0]), 'impl': [repr(float(v)) for v in impl[0][0]],
-                'bbox': impl[0][1]})
-    ctx.sample({'case': describe_grid(cases[n_img]),
-                'impl': [None if o is None else [repr(float(v)) for v in o[0]] for o in impl[n_img][0]]})
-    ctx.sample({'case': describe_analytic(cases[n_img + n_grid]),
-                'impl': [repr(float(v)) for v in impl[n_img + n_grid]]})
+    for kind in ('image', 'grid', 'analytic'):
+        for i, c in enumerate(cases):
+            if c['kind'] != kind:
+                continue
+            if kind == 'image':
+                ctx.sample({'case': describe_image(c), 'impl': [repr(float(v)) for v in impl[i][0]], 'bbox': impl[i][1]})
+            elif kind == 'grid':
+                ctx.sample({'case': describe_grid(c),
+                            'impl': [None if o is None else [repr(float(v)) for v in o[0]] for o in impl[i][0]]})
+            else:
+                ctx.sample({'case': describe_analytic(c), 'impl': [repr(float(v)) for v in impl[i]]})
+            break
 
     bad = ctx.coq_eval_cases(['C13_Model'], 'check_case', terms, case_type='case')
     ctx.stat('coq', 'disagreements', len(bad))
@@ -941,7 +988,10 @@ def run(ctx):
     for k in range(n_real):
         rc = gen_real_case(rng)
         ctx.stat('analytic_real', rc['name'])
-        fails = real_checks(rc, support_cb=lambda nm: ctx.support('numerical integral = flux: ' + nm))
+        try:
+            fails = real_checks(rc, support_cb=lambda nm: ctx.support('numerical integral = flux: ' + nm))
+        except Exception as e:      # noqa
+            fails = [(f'{rc["name"]}:exception:{type(e).__name__}', f'model raised on a valid input: {e!s:.200}')]
         th = rc['params'].get('theta')
         ctx.stat('analytic_real_theta', 'n/a' if th is None else ('multiple_of_90' if th % 90 == 0 else 'other'))
         ctx.count_case(rc, True)
